@@ -28,5 +28,14 @@ h_step(void)
 
 	r = getopt(a_c, a_v);
 
+	/* documented range of the results (C15) */
+	__CPROVER_assert(r == NULL || r == popt || (s_optind < a_c && r == a_v[s_optind]) ||
+	    (g_go_F < t_n && opts[g_go_F].os != NULL && r == opts[g_go_F].os),
+	    "getopt: returns NULL, the spelled-out short option, the current word or a registered name");
+	__CPROVER_assert(optind >= s_optind && (optind <= a_c || optind == s_optind), "getopt: optind stays within [old optind, argc]");
+	__CPROVER_assert(optarg == NULL || (s_optind < a_c && __CPROVER_same_object(optarg, a_v[s_optind]) &&
+	    __CPROVER_POINTER_OFFSET(optarg) <= a_l[s_optind]) || (s_optind + 1 < a_c && optarg == a_v[s_optind + 1]),
+	    "getopt: optarg is NULL, points into the current word, or is the next word");
 	GO_STEP_COVER();
+	VCOVER(r != NULL && optarg != NULL && g_go_F == 0 && t_n == 1);	/* (the marker list proper is GO_STEP_COVER in go_state.h) */
 }
